@@ -260,6 +260,8 @@ class QFDriver:
 
     def verify(self, what):
         ctx, o = self.ctx, self.obj
+        if getattr(self, "_skip_verify", False):
+            return
         s = self._o("set")
         if s:
             for h in self.model:
@@ -285,8 +287,13 @@ class QFDriver:
 
     def run(self):
         self.verify("fresh")
-        for op in self.case["ops"]:
+        ops = self.case["ops"]
+        every = self.case.get("verify_every")
+        for i, op in enumerate(ops):
+            # long constructions (e.g. filling a 512-slot table completely): the full comparison only every n-th step and at the end
+            self._skip_verify = bool(every) and i % every != 0 and i < len(ops) - 3
             self.step(op)
+        self._skip_verify = False
         for f in self.feats:
             self.ctx.feat(f)
         self.ctx.feat("final_q=%d" % self.obj.quotient)
